@@ -233,6 +233,7 @@ structure Table where
 structure DestI where
   id : Nat
   Match : Bytes → Bool
+  deriving Inhabited
 structure RouteConfig where
   Dests : List DestI
 structure SendAllMatch where
@@ -248,6 +249,12 @@ structure HashRingEntry where
   deriving Inhabited
 structure ConsistentHasher where
   Ring : List HashRingEntry
+/-- route/route.go `consistentHashingConfig` -/
+structure CHConfig where
+  Dests : List DestI
+  Hasher : ConsistentHasher
+structure ConsistentHashing where
+  config : CHConfig
 
 /-- package-level functions of other packages that translated code calls and that are modelled elsewhere -/
 structure Env where
